@@ -12,7 +12,20 @@ fn cli_path() -> String {
     std::env::var("VERIF_CLI").unwrap_or_else(|_| "/verif/build/target-cli/debug/emulator_8086".to_string())
 }
 
+/// with VERIF_CLI_REPEAT=n every case is run n times in separate processes; the answers must be identical
 pub fn answer(req: &str) -> String {
+    let n: usize = std::env::var("VERIF_CLI_REPEAT").ok().and_then(|s| s.parse().ok()).unwrap_or(1);
+    let first = answer_once(req);
+    for _ in 1..n {
+        let again = answer_once(req);
+        if again != first {
+            return format!("NONDET first={} || again={}", first, again);
+        }
+    }
+    first
+}
+
+fn answer_once(req: &str) -> String {
     let parts: Vec<&str> = req.splitn(3, " | ").collect();
     if parts.len() != 3 {
         return "BADREQ".into();
